@@ -1685,7 +1685,7 @@ class ExecGen:
         """content lines of a triple-quoted literal delimited by q (\"\"\" or ''')"""
         r = self.rng
         other = "'''" if q == '"""' else '"""'
-        pool = ["line", "    indented", "\tx" if self.tabs_in_strings else "  y", "# not a comment", "it's", 'say "x"', other,
+        pool = ["line", "    indented", "\tx", "a\tb", "\t\tdeep", "  y", "# not a comment", "it's", 'say "x"', other,
                 other + " text " + other, "ends with backslash \\", "", "  ", "x = 1", "if a:", "\\" + q[0] + q[0] + q[0] if False else "k\\n",
                 "a\\\\", "%>" if False else "pct %", "${nope}" if False else "$ {brace}"]
         return [r.choice(pool) for _ in range(r.randint(1, 4))]
@@ -1716,7 +1716,7 @@ class ExecGen:
         if k < 0.85:
             return [("code", str(r.randint(0, 9)) + " + \\"), ("cont", r.choice(["", "  ", "        ", "\t"]) + str(r.randint(0, 9)))]
         if k < 0.92:
-            return [("code", "'abc\\"), ("raw", r.choice(["def'", "  def'", "d#f'", 'd"f\'']))]
+            return [("code", "'abc\\"), ("raw", r.choice(["def'", "  def'", "d#f'", 'd"f\'', "\tdef'", "d\tf'"]))]
         return [("code", "(" + str(r.randint(0, 9)) + ","), ("cont", r.choice(["", "  ", "          "]) + "'t')")]
 
     def assign(self, top, ind):
@@ -1990,8 +1990,11 @@ def remargin_features(src):
         if t.type == tokenize.STRING:
             s = t.string.lstrip("rbuRBUfF")
             triple = s[:3] in ('"""', "'''")
-            if "\t" in s:
-                feats.append("tab-in-literal")
+            phys = t.string.split("\n")
+            if "\t" in phys[0]:
+                feats.append("tab-in-literal")               # on a code line: expandtabs() of the unchanged code hits it
+            if any("\t" in x for x in phys[1:]):
+                feats.append("tab-on-string-continuation-line")   # inside multi-line state: must never be touched
             if not triple:
                 if "#" in s:
                     feats.append("hash-in-ordinary-string")
@@ -2019,7 +2022,8 @@ def remargin_features(src):
     order = ["tab-in-literal", "comment-ending-in-backslash", "triple-quote-in-comment", "hash-in-ordinary-string",
              "triple-quote-chars-in-ordinary-string", "escaped-quote-in-triple-string",
              "foreign-triple-quote-in-triple-string", "own-quote-char-in-triple-string",
-             "empty-or-quote-led-triple-string", "hash-in-one-line-triple-string", "untokenizable"]
+             "empty-or-quote-led-triple-string", "hash-in-one-line-triple-string", "untokenizable",
+             "tab-on-string-continuation-line"]
     return [f for f in order if f in feats]
 
 
@@ -2074,6 +2078,25 @@ def oracle_blocks(ctx, blocks):
             small = groups
         ls = [x for g in small for x in g]
         m2, v2 = margin, variant
+
+        def fails_lines(cand_ls, m=None, v=None):
+            sx = block_is_valid(cand_ls)
+            if sx is None:
+                return False
+            w = native_exec(sx, names)
+            return w[0] == "ok" and template_exec(block_template(v or v2, with_margin(cand_ls, m if m is not None else m2),
+                                                                 m if m is not None else m2, names)) != w
+        # drop content lines of multi-line literals that are not needed (never the line holding the closing quote)
+        progress = True
+        while progress:
+            progress = False
+            for i in range(len(ls) - 1):
+                if ls[i][0] == "raw" and ls[i + 1][0] == "raw":
+                    cand = ls[:i] + ls[i + 1:]
+                    if fails_lines(cand, margin, variant):
+                        ls, progress = cand, True
+                        break
+        small = [ls]
         for cand in ("    ", "  ", "\t"):
             if cand != m2 and fails_groups(small, cand, v2):
                 m2 = cand
@@ -2084,6 +2107,13 @@ def oracle_blocks(ctx, blocks):
                 break
         s2 = block_is_valid(ls) or src
         feats = remargin_features(s2)
+        if "tab-on-string-continuation-line" in feats:
+            # is the damage done to a TAB on a continuation line of a string literal?  (the recorded finding
+            # remargin-tab-in-literal only concerns TABs on code lines.)  Decide by experiment: without those TABs the
+            # block must be fine.
+            neutral = [(k, t.replace("\t", "T") if k == "raw" else t) for k, t in ls]
+            if not fails_lines(neutral):
+                feats = ["tab-on-string-continuation-line"]
         feature = feats[0] if feats else "unclassified"
         side = "lexer-or-printer" if v2 in ("top", "module") else "printer-indent"
         site = "remargin-" + feature
